@@ -539,10 +539,10 @@ FB_SHAPES = [
     (2000, 0.5, 0, [2], True),
     (3600, 0.5, 0, [1, 4, 12], True),      # 2^15 / 2^16
     (3600, 1.0, 0, [2, 5], True),          # every prime: buckets of the size-16 table overflow
-    (5000, 0.5, 0, [3], False),
-    (10000, 0.5, 0, [4], False),
-    (23000, 0.5, 0, [2, 7, 12], False),    # crosses 2^19: large tables
-    (23000, 0.9, 0, [5], False),
+    (5000, 0.5, 0, [3], True),
+    (10000, 0.5, 0, [4], True),
+    (23000, 0.5, 0, [2, 7, 12], True),    # crosses 2^19: large tables
+    (23000, 0.9, 0, [5], True),
 ]
 
 
